@@ -633,6 +633,9 @@ type Device struct {
 	MTU     uint16
 	Reuse   bool // AllowCredentialReuse
 	Devmod  serviceinfo.Devmod
+	// HmacFailAt, when set, gives the device hardware-style HMAC objects (FlakyHmac) whose
+	// n-th Sum fails
+	HmacFailAt *int
 }
 
 // NewDevice creates a device using static key #keyIdx of the config's kind.
@@ -677,9 +680,40 @@ func (d *Device) TO1(ctx context.Context, l *Link) (*cose.Sign1[protocol.To1d, [
 	return fdo.TO1(ctx, l.Transport(), *d.Cred, d.Key, &fdo.TO1Options{PSS: d.Cfg.PSS()})
 }
 
+// FlakyHmac wraps an HMAC like a hardware-backed one (e.g. a TPM sequence): a failing
+// computation returns no digest from Sum and reports the failure through Err() until the
+// next Reset. FailAt is the ordinal of the Sum call (0-based, counted per object) that fails;
+// -1 never.
+type FlakyHmac struct {
+	hash.Hash
+	FailAt int
+	sums   int
+	err    error
+}
+
+// Sum implements hash.Hash.
+func (f *FlakyHmac) Sum(b []byte) []byte {
+	n := f.sums
+	f.sums++
+	if n == f.FailAt {
+		f.err = errors.New("hmac engine: sequence failed (injected)")
+		return nil
+	}
+	return f.Hash.Sum(b)
+}
+
+// Reset implements hash.Hash and clears a pending error.
+func (f *FlakyHmac) Reset() { f.err = nil; f.Hash.Reset() }
+
+// Err reports a failure since the last Reset.
+func (f *FlakyHmac) Err() error { return f.err }
+
 // TO2Config builds the library's TO2 configuration for this device.
 func (d *Device) TO2Config() fdo.TO2Config {
 	h256, h384 := d.Hmacs()
+	if d.HmacFailAt != nil {
+		h256, h384 = &FlakyHmac{Hash: h256, FailAt: *d.HmacFailAt}, &FlakyHmac{Hash: h384, FailAt: *d.HmacFailAt}
+	}
 	return fdo.TO2Config{Cred: *d.Cred, HmacSha256: h256, HmacSha384: h384, Key: d.Key, PSS: d.Cfg.PSS(), Devmod: d.Devmod, DeviceModules: d.Modules,
 		KeyExchange: d.Cfg.Suite(), CipherSuite: d.Cfg.CipherID(), MaxServiceInfoSizeReceive: d.MTU, AllowCredentialReuse: d.Reuse}
 }
